@@ -191,12 +191,12 @@ Lemma time_parse_range : forall s n, time_parse s = Some n -> 0 <= n < DAY.
 Proof.
   intros s n. unfold time_parse.
   repeat match goal with
-         | |- match ?x with _ => _ end = _ -> _ => destruct x; try discriminate
-         | |- (let (_, _) := ?x in _) = _ -> _ => destruct x
          | |- (if ?c then _ else _) = _ -> _ => destruct c eqn:?; try discriminate
+         | |- (let (_, _) := ?x in _) = _ -> _ => destruct x
+         | |- match ?x with _ => _ end = _ -> _ => destruct x; try discriminate
          end.
   intro E. injection E as <-.
-  match goal with H : (_ && _) = true |- _ => apply andb_true_iff in H; destruct H as [H1 H2] end.
+  match goal with H : ((0 <=? _) && _) = true |- _ => apply andb_true_iff in H; destruct H as [H1 H2] end.
   rewrite Z.leb_le in H1. rewrite Z.ltb_lt in H2. split; assumption.
 Qed.
 
@@ -251,19 +251,23 @@ Definition byte_ok (b : Z) : Prop := 0 <= b < 256.
 
 Lemma cmp_min : forall l, Forall byte_ok l -> cmp_signed_bytes (repeat 128 (length l)) l <> Gt.
 Proof.
-  induction l as [|b l IH]; intro F; cbn; [discriminate|].
+  induction l as [|b l IH]; intro F; cbn [length repeat cmp_signed_bytes]; [discriminate|].
   inversion F as [|? ? Hb F']; subst. unfold byte_ok in Hb.
   destruct (signed8 128 ?= signed8 b) eqn:C; [apply IH; exact F'|discriminate|].
-  exfalso. apply Z.compare_gt_iff in C. unfold signed8 in C. cbn in C. destruct (b <? 128) eqn:E; rewrite ?Z.ltb_lt, ?Z.ltb_ge in E; lia.
+  exfalso. apply Z.compare_gt_iff in C. change (signed8 128) with (-128) in C. unfold signed8 in C. destruct (b <? 128) eqn:E; rewrite ?Z.ltb_lt, ?Z.ltb_ge in E; lia.
 Qed.
 
 Lemma cmp_max : forall l, Forall byte_ok l -> cmp_signed_bytes l (repeat 127 (length l)) <> Gt.
 Proof.
-  induction l as [|b l IH]; intro F; cbn; [discriminate|].
+  induction l as [|b l IH]; intro F; cbn [length repeat cmp_signed_bytes]; [discriminate|].
   inversion F as [|? ? Hb F']; subst. unfold byte_ok in Hb.
   destruct (signed8 b ?= signed8 127) eqn:C; [apply IH; exact F'|discriminate|].
-  exfalso. apply Z.compare_gt_iff in C. unfold signed8 in C. cbn in C. destruct (b <? 128) eqn:E; rewrite ?Z.ltb_lt, ?Z.ltb_ge in E; lia.
+  exfalso. apply Z.compare_gt_iff in C. change (signed8 127) with 127 in C. unfold signed8 in C. destruct (b <? 128) eqn:E; rewrite ?Z.ltb_lt, ?Z.ltb_ge in E; lia.
 Qed.
+
+Lemma cmp_cons : forall x a y b, cmp_signed_bytes (x :: a) (y :: b) =
+  match signed8 x ?= signed8 y with Eq => cmp_signed_bytes a b | c => c end.
+Proof. reflexivity. Qed.
 
 Lemma uuid_bounds : forall us node clock, 0 <= node < 2 ^ 48 -> 0 <= clock < 2 ^ 14 ->
   cass_le (min_uuid us) (uuid_from_us us node clock) = true /\ cass_le (uuid_from_us us node clock) (max_uuid us) = true.
@@ -275,19 +279,35 @@ Proof.
   { unfold lsb_bytes. cbn [skipn]. rewrite E5, E6.
     repeat constructor; apply Z.mod_pos_bound; reflexivity. }
   pose proof (Z.mod_pos_bound (clock / 256) 64 ltac:(lia)) as Hq.
-  unfold cass_le, cass_compare, min_uuid, max_uuid. rewrite !T, Z.compare_refl. split.
+  unfold cass_le, cass_compare, min_uuid, max_uuid. rewrite (T 141289400074368 128), (T 140185576636287 16255), !Z.compare_refl. split.
   - assert (lsb_bytes (uuid_from_us us 141289400074368 128) = repeat 128 (length (lsb_bytes (uuid_from_us us node clock)))) as -> by reflexivity.
     pose proof (cmp_min (lsb_bytes (uuid_from_us us node clock))) as M.
     destruct (cmp_signed_bytes _ _); try reflexivity. exfalso. apply M; [|reflexivity].
     unfold lsb_bytes in *. cbn [skipn] in FB. constructor; [|exact FB]. rewrite E4. unfold byte_ok. lia.
-  - assert (lsb_bytes (uuid_from_us us 139637976727423 16255) = 191 :: repeat 127 (length (skipn 1 (lsb_bytes (uuid_from_us us node clock))))) as -> by reflexivity.
-    unfold lsb_bytes in *. cbn [skipn] in *. cbn [cmp_signed_bytes]. rewrite E4.
+  - assert (lsb_bytes (uuid_from_us us 140185576636287 16255) = 191 :: repeat 127 (length (skipn 1 (lsb_bytes (uuid_from_us us node clock))))) as -> by reflexivity.
+    assert (lsb_bytes (uuid_from_us us node clock) = f_csh (uuid_from_us us node clock) :: skipn 1 (lsb_bytes (uuid_from_us us node clock))) as EL by reflexivity.
+    set (rest := skipn 1 (lsb_bytes (uuid_from_us us node clock))) in *. rewrite EL, cmp_cons, E4.
     set (q := (clock / 256) mod 64) in *.
     assert (signed8 (128 + q) = q - 128) as -> by (unfold signed8; destruct (128 + q <? 128) eqn:E; rewrite ?Z.ltb_lt, ?Z.ltb_ge in E; lia).
     change (signed8 191) with (-65).
     destruct (q - 128 ?= -65) eqn:C.
-    + match goal with |- context [cmp_signed_bytes ?a ?b] => pose proof (cmp_max a FB) as M; destruct (cmp_signed_bytes a b) end; try reflexivity.
-      exfalso. apply M. reflexivity.
+    + destruct (cmp_signed_bytes rest (repeat 127 (length rest))) eqn:CC; [reflexivity|reflexivity|].
+      exfalso. exact (cmp_max rest FB CC).
     + reflexivity.
     + apply Z.compare_gt_iff in C. lia.
+Qed.
+
+(* ------------------------------------------------------------------ Time(int) range: over the TRANSLATED _from_timestamp *)
+Lemma time_accepts_range : forall n, time_accepts n = true <-> 0 <= n < DAY.
+Proof.
+  intro n. unfold time_accepts, time_from_timestamp, DAY.
+  destruct (n <? 0) eqn:E1; destruct (n >=? 86400000000000) eqn:E2; cbn [orb andb negb];
+    rewrite ?Z.ltb_lt, ?Z.ltb_ge in E1; rewrite ?Z.geb_le in E2; rewrite ?Z.geb_leb, ?Z.leb_gt in E2;
+    (split; [intro H; try discriminate H; lia | intro H; try reflexivity; lia]).
+Qed.
+
+Lemma time_value_id : forall n v, time_value n = Some v -> v = n.
+Proof.
+  intros n v. unfold time_value, time_from_timestamp.
+  destruct (n <? 0); destruct (n >=? 86400000000000); cbn [orb andb negb]; intro H; try discriminate H; injection H as <-; reflexivity.
 Qed.
